@@ -2,3 +2,4 @@
 From Coq Require Import ZArith List Bool String.
 From Verif Require Import Lib.Dyadic Model.C10_Attr Model.C10_File Model.C10_Graph Proofs.C10_GraphRT.
 Definition check_hyp2 (g : gdataset) : Z := if gwf g then 1%Z else 0%Z.
+Definition hyp_case2 (c : gdataset * Z * owrite2 * oread2) : Z := check_hyp2 (fst (fst (fst c))).
